@@ -158,10 +158,11 @@ def gen_plan(rng, index, tier):
             for fr in plan["frames"]:
                 if len(fr["animals"]) > lab:
                     fr["unlabelled"] = sorted(rng.sample(range(len(fr["animals"])), len(fr["animals"]) - lab))
-        else:
+        elif rng.random() < 0.3:
             for fr in plan["frames"]:
                 if len(fr["animals"]) >= 2 and rng.random() < 0.4:
                     fr["unlabelled"] = [rng.randrange(len(fr["animals"]))]
+        # else: fully labelled - these dense frames are where a set max_instances actually binds (crowded frame next to a sparse one)
     if kind == "topdown":
         plan["max_instances"] = rng.choice([None, 1, 1, 2, 2])
         if plan.get("gt_centroids"):
